@@ -98,3 +98,27 @@ Theorem C10_parens_redundant :
   ltac:(let t := type of NS.Properties.PARSER.PARSER_parens_redundant in exact t).
 Proof. exact NS.Properties.PARSER.PARSER_parens_redundant. Qed.
 Print Assumptions C10_parens_redundant.
+
+(* ================================================================== round 3: end-to-end composition
+   theories/Pipeline.v assembles lexer -> parser -> named tree -> static rules -> evaluator from SOURCE
+   BYTES (tied to the code by lib/props/pipeline.py on source text).  Statements as in
+   Properties/PIPELINE.v; restated by type so that this property's audit covers them. *)
+Require NS.Properties.PIPELINE.
+
+(* two separating layouts of one token list: same named tree, acceptance, violations and outcome *)
+Theorem C10_layout_invariant_end_to_end :
+  ltac:(let t := type of NS.Properties.PIPELINE.PIPELINE_layout_invariant_end_to_end in exact t).
+Proof. exact NS.Properties.PIPELINE.PIPELINE_layout_invariant_end_to_end. Qed.
+Print Assumptions C10_layout_invariant_end_to_end.
+
+(* for accepted texts the outcomes are literally equal *)
+Theorem C10_layout_invariant_accepted :
+  ltac:(let t := type of NS.Properties.PIPELINE.PIPELINE_layout_invariant_accepted in exact t).
+Proof. exact NS.Properties.PIPELINE.PIPELINE_layout_invariant_accepted. Qed.
+Print Assumptions C10_layout_invariant_accepted.
+
+(* redundant parentheses: same tree and equal outcomes, end to end *)
+Theorem C10_parens_redundant_end_to_end :
+  ltac:(let t := type of NS.Properties.PIPELINE.PIPELINE_parens_redundant_end_to_end in exact t).
+Proof. exact NS.Properties.PIPELINE.PIPELINE_parens_redundant_end_to_end. Qed.
+Print Assumptions C10_parens_redundant_end_to_end.
